@@ -291,8 +291,6 @@ def build_particle_list(spec):
                 o.t = p['t']
                 if p['exit'] is not None:
                     o.te, o.xe, o.ye, o.ze = p['exit']
-        # a completed simulation leaves K_T at its initial value (Model.simulate restarts heat transfer)
-        o.K_T = p['K_T']
         ps.append(o)
     chem = []
     for o in ps:
@@ -300,7 +298,8 @@ def build_particle_list(spec):
             chem += [c for c in o.composition if c not in chem]
     if spec['ptype'] == 0:
         chem = list(ps[0].composition)
-    return ps, chem, [p['K_T'] for p in spec['particles']]
+    # Model.simulate records K_T0 from the constructed particles and restores it at the end
+    return ps, chem, [float(o.K_T) for o in ps]
 
 
 # ---------------------------------------------------------------------------
